@@ -1,11 +1,11 @@
 open Common
 (* ---------------- control-flow analyzer model (C10/C11) ----------------
    Input line:  FIXMASK PROGRAM
-     FIXMASK  = 1*fixA + 2*fixB + 4*fixC + 8*fixD + 16*fixE   (0 = the faithful model)
+     FIXMASK  = 1*fixA + 2*fixB + 4*fixC + 8*fixD + 16*fixE + 32*fixF   (0 = the faithful model)
      PROGRAM  = getter(0/1) p_start p_pb STMTS
      STMTS    = count STMT*
      EXPR     = 0 id | 1 id | 2 | 3                (ident | call | literal | this)
-     COND     = 0 | 1 | 2 EXPR                     (true | false | opaque)
+     COND     = 0 | 1 | 2 EXPR | 3 EXPR b(0/1) | 4   (true | false | opaque | `(EXPR, b)` | truthy but unknown to swc)
      STMT     = 0 p EXPR | 1 p | 2 p is_var OPT(EXPR) | 3 p name pb STMTS | 4 p pb STMTS
               | 5 p OPT(EXPR) | 6 p EXPR | 7 p OPT(label) | 8 p OPT(label) | 9 p STMTS
               | 10 p COND STMT | 11 p COND STMT STMT | 12 p COND STMT | 13 p STMT COND
@@ -26,6 +26,8 @@ let read_cond () =
   | 0 -> Syntax.CTrue
   | 1 -> Syntax.CFalse
   | 2 -> Syntax.COpaque (read_expr ())
+  | 3 -> let e = read_expr () in let b = read_bool () in Syntax.CSeq (e, b)
+  | 4 -> Syntax.CUnkTrue
   | _ -> failwith "cond"
 let rec stmts_of = function [] -> Syntax.SNil | s :: r -> Syntax.SCons (s, stmts_of r)
 let rec read_stmt () : Syntax.stmt =
@@ -73,7 +75,7 @@ and read_cases () : Syntax.cases =
 
 let read_fixes () =
   let m = next_int () in
-  { Analyzer.fixA = m land 1 <> 0; fixB = m land 2 <> 0; fixC = m land 4 <> 0; fixD = m land 8 <> 0; fixE = m land 16 <> 0 }
+  { Analyzer.fixA = m land 1 <> 0; fixB = m land 2 <> 0; fixC = m land 4 <> 0; fixD = m land 8 <> 0; fixE = m land 16 <> 0; fixF = m land 32 <> 0 }
 let read_program () =
   let g = read_bool () in let ps = read_n () in let pb = read_n () in let b = read_stmts () in
   { Syntax.p_getter = g; p_start = ps; p_pb = pb; p_body = b }
